@@ -1,5 +1,5 @@
 from .. import facts
-from ..rules import traps, threads
+from ..rules import traps, threads, image
 
 
 def run(ck):
@@ -10,3 +10,4 @@ def run(ck):
     threads.r3_drawing_no_mutation(ck, P)
     threads.r4_sources_untouched(ck, P)
     traps.r7_edge_clamps(ck, P)              # C04-R7: a read-modify-write of the byte after a row races with the thread that owns the adjacent image
+    image.r_validate_clears_dirty(ck, P, 'C16-R5')
